@@ -2,6 +2,8 @@
 import os
 from core.report import Run
 
+OSCORE_UNITS = ('coap_oscore.c', 'oscore.c', 'oscore_cbor.c', 'oscore_context.c', 'oscore_cose.c', 'oscore_crypto.c')
+
 ASSUME_COMMON = [
     "clang 14's parser and CFG construction are faithful to the C source",
     "the cmake configure step run by the check reproduces the shipped configuration (flags, generated headers)",
@@ -152,6 +154,7 @@ def c01(run):
     r_fixup.run_capacity(run, P)
     from rules import r_loststore
     run.require_count(r_loststore.run(run, P, units=('coap_pdu.c',)) >= 1 or run.cfg != 'base', 'R-LOST-STORE: no store followed by a resetting callee found in coap_pdu.c')
+    run.require_count(r_loststore.run_maintained(run, P, units=('coap_pdu.c',)) >= 1 or run.cfg != 'base', 'R-LOST-STORE (maintained field): no field copy between two objects found in coap_pdu.c')
     from rules import r_width as _rw
     _rw.run_f(run, P)
     _rw.run_g(run, P)
@@ -183,18 +186,19 @@ def c03(run):
     r_codec.run_tokbias(run, P)
     r_codec.run_tokmax(run, P)
     r_codec.run_marker(run, P)
+    r_codec.run_option_limits(run, P)
     r_parsegate.run(run, P)
     r_parsegate.run_outputs(run, P)
     r_parsegate.run_verdict(run, P)
     run.min_instances('R-WIDTH', 4)
     run.min_instances('R-PARSE-GATE', 15)
-    run.assumptions = ASSUME_COMMON + ["agreement with an independent decoder on all inputs and the per-option length table are NOT decided"]
+    run.assumptions = ASSUME_COMMON + ["agreement with an independent decoder on all inputs is NOT decided; the per-option length limits are compared with the RFC tables frozen in rules/r_codec.py (26 option numbers)"]
     return run.finish(
         "Decoder strictness decided structurally: option-number arithmetic cannot wrap unnoticed (interval analysis of every assignment to the "
         "16-bit delta / running number with wrap-guard or range-guard discharge, R-WIDTH); decoder tables agree with the encoder's and the RFCs "
         "(R-CODEC-TAB); every reject condition of the frozen table (nibble 15, TKL 15, token longer than message, marker without payload, "
         "non-empty Empty, option-number overflow, runt) exists and every path through its rejecting arm returns 0, and coap_dispatch is reached only "
-        "after successful parser calls (R-PARSE-GATE). The accept flag a decoding function collects over several checks is never raised again once it is 0 (R-PARSE-GATE verdict); token-length thresholds cut at 13 / 269 (R-CODEC-TAB 7). A stored payload marker is followed by payload of known non-zero length (R-CODEC-TAB 9). An argument implicitly narrowed to an 8-/16-bit parameter in the decoding units is proven to fit (R-WIDTH d: the per-option limits see the full option length). The option-number bound of next_option_safe() is decided by enumeration over boundary pairs, and its overflow-safe spelling `delta > MAX - *max_opt` is recognised by the wrap guard and the reject table. A value implicitly narrowed into a local of the codec units fits whenever it can be bounded (R-WIDTH g: the decoded extended token length).")
+        "after successful parser calls (R-PARSE-GATE). The per-option length limits extracted from the decoder's switch equal the RFC tables row by row (R-CODEC-TAB 11: 26 option numbers). The accept flag a decoding function collects over several checks is never raised again once it is 0 (R-PARSE-GATE verdict); token-length thresholds cut at 13 / 269 (R-CODEC-TAB 7). A stored payload marker is followed by payload of known non-zero length (R-CODEC-TAB 9). An argument implicitly narrowed to an 8-/16-bit parameter in the decoding units is proven to fit (R-WIDTH d: the per-option limits see the full option length). The option-number bound of next_option_safe() is decided by enumeration over boundary pairs, and its overflow-safe spelling `delta > MAX - *max_opt` is recognised by the wrap guard and the reject table. A value implicitly narrowed into a local of the codec units fits whenever it can be bounded (R-WIDTH g: the decoded extended token length).")
 
 
 def c04(run):
@@ -209,6 +213,7 @@ def c04(run):
     r_fixup.run_capacity(run, P)
     from rules import r_loststore
     run.require_count(r_loststore.run(run, P, units=('coap_pdu.c',)) >= 1 or run.cfg != 'base', 'R-LOST-STORE: no store followed by a resetting callee found in coap_pdu.c')
+    run.require_count(r_loststore.run_maintained(run, P, units=('coap_pdu.c',)) >= 1 or run.cfg != 'base', 'R-LOST-STORE (maintained field): no field copy between two objects found in coap_pdu.c')
     from rules import r_width as _rw
     _rw.run_f(run, P)
     _rw.run_g(run, P)
@@ -497,6 +502,9 @@ def c14(run):
     r_oscflags.run(run, P)
     from rules import r_osccbor
     r_osccbor.run(run, P)
+    from rules import r_width
+    # a 64-bit quantity (the sender sequence number = Partial IV) is not implicitly narrowed on its way into an encoder (expected count zero; fixtures/C14_width_call64.c)
+    r_width.run_d(run, P, units=OSCORE_UNITS, widths=(8, 16, 32), min_src=64)
     run.min_instances('R-OSC-SPLIT', 7)
     run.assumptions = ASSUME_COMMON + ["byte equality with an independent RFC 8613 implementation (COSE object, AAD, nonce, AES-CCM output) and the round trip are NOT decided"]
     return run.finish(
@@ -506,7 +514,7 @@ def c14(run):
         "reached only with the result of cose_encrypt0_decrypt known > 0 (R-OSC-SPLIT); (3) the association that carries the request's AAD, "
         "nonce and partial IV to the response is filled, refreshed and read back field-for-field from the COSE object's fields of the same role "
         "(R-OSC-ROLE, roles computed from the two record types); (4) every local flag that steers an RFC 8613 step in the protect / unprotect "
-        "functions can have its non-initial value where it is tested (reaching definitions). The option decoder examines all eight bits of the flag byte (R-OSC-FLAGS). The CBOR head writer produces the RFC 8949 form at the boundary values of every form (R-OSC-CBOR). While the iterator walks the received PDU every class E option number is on the discard arm (outer discard). With the exchange's association found, the recipient context is not taken from the session (association is the source). A field parked for the duration of a call is restored on every path that overwrote it (R-SAVE-RESTORE: session->oscore_encryption).")
+        "functions can have its non-initial value where it is tested (reaching definitions). The option decoder examines all eight bits of the flag byte (R-OSC-FLAGS). The CBOR head writer produces the RFC 8949 form at the boundary values of every form (R-OSC-CBOR). While the iterator walks the received PDU every class E option number is on the discard arm (outer discard). With the exchange's association found, the recipient context is not taken from the session (association is the source). A field parked for the duration of a call is restored on every path that overwrote it (R-SAVE-RESTORE: session->oscore_encryption). In the OSCORE units no 64-bit variable or field (the sender sequence number that becomes the Partial IV and the nonce) is implicitly converted to a narrower parameter unless the interval analysis proves it fits (R-WIDTH d).")
 
 
 def c02(run):
